@@ -1027,3 +1027,109 @@ func (a *A) ruleDeliveredBatchFresh() int {
 	}
 	return n
 }
+
+// ---------------------------------------------------------------- in-place filtering
+
+// ruleInPlaceFilter: `out := xs[:0]` followed by appends to out while xs is still being ranged over
+// is the in-place filter idiom. It is only correct when the write index never overtakes the read
+// index: on every path through one iteration at most one element is appended. A loop that can append
+// two elements for one element read (a run that forks into several successors) overwrites elements it
+// has not read yet.
+func (a *A) ruleInPlaceFilter(pkgs ...string) int {
+	inPkgs := map[*ssa.Package]bool{}
+	for _, p := range pkgs {
+		inPkgs[a.Pkg(p)] = true
+	}
+	n := 0
+	for _, fn := range a.ModFuncs {
+		if fn.Pkg == nil || !inPkgs[fn.Pkg] || fn.Blocks == nil {
+			continue
+		}
+		loops := rangeLoops(fn)
+		allInstrs(fn, func(in ssa.Instruction) {
+			s0, ok := in.(*ssa.Slice)
+			if !ok || s0.High == nil {
+				return
+			}
+			if k, ok := s0.High.(*ssa.Const); !ok || k.Int64() != 0 {
+				return
+			}
+			if _, isSlice := s0.X.Type().Underlying().(*types.Slice); !isSlice {
+				return
+			}
+			baseT := TermOf(s0.X, nil).String()
+			// values that share s0's backing array
+			alias := flowsForward(s0)
+			for _, l := range loops {
+				if l.X == nil || TermOf(l.X, nil).String() != baseT {
+					continue
+				}
+				n++
+				construct := fname(fn) + "#in-place-filter"
+				isApp := func(in ssa.Instruction) bool {
+					c, ok := in.(*ssa.Call)
+					if !ok {
+						return false
+					}
+					cc, ok := isBuiltinCall(c, "append")
+					return ok && alias[cc.Args[0]]
+				}
+				// max number of aliasing appends on a path through one iteration (2 = "two or more")
+				memo := map[*ssa.BasicBlock]int{}
+				onStack := map[*ssa.BasicBlock]bool{}
+				var most func(b *ssa.BasicBlock) int
+				most = func(b *ssa.BasicBlock) int {
+					if b == l.Header || !l.Blocks[b] {
+						return 0
+					}
+					if onStack[b] {
+						// inner cycle: if it contains an append the count is unbounded
+						return 0
+					}
+					if v, ok := memo[b]; ok {
+						return v
+					}
+					onStack[b] = true
+					here := 0
+					for _, in := range b.Instrs {
+						if isApp(in) {
+							here++
+						}
+					}
+					best := 0
+					for _, s := range b.Succs {
+						if v := most(s); v > best {
+							best = v
+						}
+					}
+					onStack[b] = false
+					memo[b] = here + best
+					return here + best
+				}
+				cnt := most(l.Body)
+				// appends inside an inner cycle of the iteration
+				inner := false
+				for b := range l.Blocks {
+					hasApp := false
+					for _, in := range b.Instrs {
+						if isApp(in) {
+							hasApp = true
+						}
+					}
+					if !hasApp {
+						continue
+					}
+					for _, s := range b.Succs {
+						if s != l.Header && reachesAvoiding(s, b, l.Header) {
+							inner = true
+						}
+					}
+				}
+				a.Check(cnt <= 1 && !inner, construct, s0.Pos(),
+					"at most one element is appended to the re-used backing array per element read",
+					fmt.Sprintf("%s re-uses the backing array of %s while ranging over it and can append more than one element for one element read (%d on one path%s): the extra element overwrites an element that has not been read yet", s0.Name(), baseT, cnt, map[bool]string{true: ", inside an inner loop", false: ""}[inner]))
+			}
+		})
+	}
+	return n
+}
